@@ -413,6 +413,25 @@ def beginBlock (s : St) (h : Int) : St :=
   | none => s
   | some (v, target) => if toInt64 target ≤ h then (setMinVersion s v).1 else s
 
+/-- the `PigeonRequirements` entry of a genesis state (`nil`: `SetPigeonRequirements` returns at once) -/
+def genesisCur (s : St) : Option Ver → St × Res
+  | none => (s, .ok)
+  | some v => setMinVersion s v
+
+/-- the `ScheduledPigeonRequirements` entry of a genesis state -/
+def genesisSched (s : St) : Option (Ver × Nat) → St × Res
+  | none => (s, .ok)
+  | some p => scheduleMinVersion s p.1 p.2
+
+/-- `InitGenesis` of x/valset (chain start / re-import of an exported state): the current requirement
+    goes through `SetPigeonRequirements`, then the scheduled one through
+    `SetScheduledPigeonRequirements`; an error of either PANICS (`rejected`: the chain does not start,
+    nothing is kept). On a fresh store the comparison is against the built-in default. -/
+def initGenesis (s : St) (cur : Option Ver) (sch : Option (Ver × Nat)) : St × Res :=
+  if (genesisCur s cur).2 = .rejected then (s, .rejected)
+  else if (genesisSched (genesisCur s cur).1 sch).2 = .rejected then (s, .rejected)
+  else ((genesisSched (genesisCur s cur).1 sch).1, .ok)
+
 /-! ## end block -/
 
 def unjailedVals (s : St) : List Val := s.vals.filter (fun v => !v.jailed)
@@ -478,5 +497,10 @@ def apply (s : St) : Op → St
   | .endBlock h t => endBlock s h t
 
 def run (s : St) (ops : List Op) : St := ops.foldl apply s
+
+/-- the operations a genesis state stands for in a history -/
+def genesisOps (cur : Option Ver) (sch : Option (Ver × Nat)) : List Op :=
+  (match cur with | none => [] | some v => [Op.setMinVersion v]) ++
+  (match sch with | none => [] | some p => [Op.scheduleMinVersion p.1 p.2])
 
 end Paloma.KeepAlive
